@@ -328,6 +328,16 @@ func resolveInstall(ctx context.Context, opts InstallOptions) (*index.VerifiedIn
 // mode, manifest Kind, audit label, and the optional install-time validation
 // hook); targetDir is --connectors.path or --processors.path.
 func installArtifact(ctx context.Context, opts InstallOptions, targetDir string, target installTarget, verified *index.VerifiedIndex, ra resolvedArtifact) (*InstallResult, error) {
+	// Structural belt-and-suspenders (index.VerifiedIndex's contract; mirrors
+	// Bundle, RunAudit and verifyBundleIndex): never act on an index the
+	// IndexVerifier did not cryptographically verify. Without this the artifact
+	// gate is the only thing standing between a shape-checked-only index
+	// (FailClosedVerifier) and an install, and --allow-unsigned skips that gate.
+	if verified == nil || !verified.Verified {
+		return nil, conduiterr.New(CodeVerificationUnavailable,
+			"the registry index could not be cryptographically verified — refusing to install from untrusted data")
+	}
+
 	key, err := ManifestKey(ra.name, ra.version)
 	if err != nil {
 		return nil, err
